@@ -49,6 +49,10 @@ class C20(Check):
             cs.append(Case("atype %s -" % n, "atype-empty"))
         return cs
 
+    def evalA_ok(self, line):
+        # the address-text cases validate two public keys each: minutes per case under vm_compute; the table lines are re-evaluated
+        return not line.startswith("addr_from_str")
+
     def extra_coverage(self, cases, impl, model):
         return {"exhaustive": True}
 
